@@ -90,7 +90,7 @@ pub fn main_for(p: Prop) -> ! {
     }
 
     let start = Instant::now();
-    let base = cases.unwrap_or(if tier == Tier::Quick { 2000 } else { 100_000 });
+    let base = cases.unwrap_or(if tier == Tier::Quick { 5000 } else { 100_000 });
     let cfg = RunCfg { property: p.id, tier, seed, threads: if tier == Tier::Quick { threads.min(8) } else { threads }, base_cases: base };
     if selftest::run() != 0 {
         println!("INCONCLUSIVE property={} monitor self-test failed", p.id);
